@@ -1,6 +1,502 @@
-//! C19 — not built yet (stub).
-use vf_core::Runner;
+//! C19 — unreadable elements are invisible; only the control plane changes
+//! authority.
+//!
+//! Sub-checks (oracle clauses as in DESIGN §5 C19):
+//! * `known_findings` — fixed reproductions of the listed findings K1–K6, K8, K9;
+//! * `two_worlds` — (a) T8 two-world non-interference of a reader's complete
+//!   response stream, (b) the reference decision function on the unambiguous
+//!   sub-family;
+//! * `immediate_effect` — (c) revocation / suspension / deny on the very next
+//!   request of a session opened before the event;
+//! * `delegation_subset` — (d) view(delegate) ⊆ view(delegator);
+//! * `authority_is_control_plane_only` — (e) no session command changes the
+//!   governance collections, an element's governance block or an audit row.
+
+mod battery;
+mod effect;
+mod findings;
+mod model;
+mod plane;
+mod subset;
+mod world;
+
+use battery::*;
+use model::*;
+use proptest::prelude::*;
+use serde::{Deserialize, Serialize};
+use std::collections::{BTreeMap, BTreeSet};
+use vf_core::{CaseCtx, Runner};
+use world::*;
+
+pub const K1: &str = "a readable element references an unreadable one (proposition endpoint / asserted_by / structural edge): the hidden id and row are disclosed";
+pub const K2: &str = "SEARCH hit scores depend on corpus statistics that include unreadable elements";
+pub const K3: &str = "SEARCH drops readable hits when unreadable hits fill its over-fetch window (4 x (limit+offset))";
+pub const K4: &str = "AS OF read admits an element by the classification of its historical version: unreadable elements are visible at coordinates before they were classified";
+pub const K5: &str = "HISTORY ELEMENT of an unreadable id lists the transactions that touched it (existence leak)";
+pub const K6: &str = "SEARCH matches on masked fields: a field mask can be probed by which hits come back";
+pub const K9: &str = "a policy deny naming the delegator does not reach its delegates: the delegate keeps what the delegator no longer holds";
+pub const K8: &str = "PREVIEW KML (and a mutation) aimed at an unreadable id is refused with NotAuthorized, at a never-assigned id with NotFoundOrNotVisible (existence leak)";
+
+/// A failed oracle clause with its structural signature.
+pub struct Fail {
+    pub sig: String,
+    pub msg: String,
+}
+
+pub fn fail<T>(sig: &str, msg: String) -> Result<T, Fail> {
+    Err(Fail { sig: sig.to_string(), msg })
+}
+
+/// Harness-side errors (a statement of the script was refused, a malformed answer).
+pub fn h<T>(r: Result<T, String>) -> Result<T, Fail> {
+    r.map_err(|e| Fail { sig: "c19:script-refused-or-malformed-answer".into(), msg: e })
+}
+
+pub fn wrap<C>(f: impl Fn(&C, &mut CaseCtx) -> Result<(), Fail>) -> impl Fn(&C, &mut CaseCtx) -> Result<(), String> {
+    move |c, ctx| match f(c, ctx) {
+        Ok(()) => Ok(()),
+        Err(Fail { sig, msg }) => ctx.fail_sig(sig, msg),
+    }
+}
+
+// ---------------------------------------------------------------------------
+// sub-check: two_worlds
+// ---------------------------------------------------------------------------
+
+#[derive(Clone, Debug, Serialize, Deserialize)]
+pub struct TwCase {
+    pub pop: Population,
+    pub gov: Gov,
+    pub reader: u8,
+    pub knobs: Knobs,
+}
+
+fn tw_strategy() -> impl Strategy<Value = TwCase> {
+    (population_strategy(6, 26), gov_strategy(), any::<u8>(), knobs_strategy(), 0u8..10).prop_map(|(pop, mut gov, reader, knobs, bias)| {
+        let reader = reader % gov.principals;
+        // most cases give the observed reader an authority of its own
+        if bias < 8 {
+            gov.grants[0].to = Grantee::Principal(reader);
+            gov.grants[0].revoked = false;
+            if bias < 6 {
+                gov.grants[0].window = if gov.grants[0].window == 3 { 3 } else { 0 };
+                gov.grants[0].ceiling = gov.grants[0].ceiling.max(1);
+                if !actions_have_read(gov.grants[0].actions) {
+                    gov.grants[0].actions = 0;
+                }
+                // and nothing denies it outright
+                gov.policy.retain(|s| !(s.deny && s.scope.is_empty()));
+                gov.status.retain(|(q, _)| *q != reader);
+            }
+        }
+        // A deny of `read` with a resource scope refuses every KQL command of the principal it names at the
+        // command gate (a deny matches at Space scope whatever its resource), while EXPORT / SEARCH pass their
+        // own gate and judge `read` element by element, where the scope is honoured: "what p reads by id" is
+        // then not one set. For the observed reader such denies are generated without a resource scope.
+        let groups_of_reader: Vec<u8> = gov.groups.iter().enumerate().filter(|(_, m)| m.contains(&reader)).map(|(i, _)| i as u8).collect();
+        for s in gov.policy.iter_mut() {
+            let names_reader = s.principals.contains(&reader) || s.groups.iter().any(|g| groups_of_reader.contains(g));
+            if s.deny && names_reader && s.actions.map(actions_have_read).unwrap_or(true) {
+                s.scope = Scope::default();
+            }
+        }
+        TwCase { pop, gov, reader, knobs }
+    })
+}
+
+fn actions_have_read(set: u8) -> bool {
+    ACTION_SETS[set as usize % ACTION_SETS.len()].contains(&"read")
+}
+
+/// Space sequences of the transactions that touched at least one of `items`
+/// (from the owner's journal of this world).
+fn visible_seqs(w: &World, items: &BTreeSet<String>) -> Result<Vec<u64>, String> {
+    let body = w.env.exec_ok("HISTORY SPACE", anda_kip::Json::Null)?;
+    let mut out = vec![];
+    for entry in crate::common::rows(&body)? {
+        let touched = entry["changes"].as_array().map(|c| c.iter().any(|ch| ch["id"].as_str().map(|id| items.contains(id)).unwrap_or(false))).unwrap_or(false);
+        if touched {
+            out.push(entry["space_seq"].as_u64().ok_or("harness: journal entry without space_seq")?);
+        }
+    }
+    out.sort();
+    Ok(out)
+}
+
+/// Registers ids that appear in a response and were minted by the reader's
+/// own writes, under labels numbered by first appearance.
+fn register_new_ids(w: &mut World, exchanges: &[Exchange]) {
+    let mut n = w.label_of.values().filter(|l| l.starts_with("new")).count();
+    for e in exchanges {
+        let mut toks = BTreeSet::new();
+        id_tokens(&e.raw, &mut toks);
+        // deterministic: by kind tag, then number
+        let mut toks: Vec<String> = toks.into_iter().filter(|t| !w.label_of.contains_key(t)).collect();
+        toks.sort_by_key(|t| (t.as_bytes()[0], t[2..].parse::<u64>().unwrap_or(0)));
+        for t in toks {
+            // only ids that really exist now (a probe id like C-987654 stays as it is)
+            if t[2..].parse::<u64>().map(|n| n >= 900_000).unwrap_or(true) {
+                continue;
+            }
+            w.label_of.insert(t, format!("new{n}"));
+            n += 1;
+        }
+    }
+}
+
+/// The largest number of raw full-text index matches among the kinds a SEARCH
+/// command looks at (used only to attribute finding K3).
+fn raw_index_matches(w: &World, text: &str, term: &str) -> usize {
+    let store = &w.env.nexus.store;
+    let concept = (store.concepts(), vec!["name", "aliases", "attributes"]);
+    let proposition = (store.propositions(), vec!["predicate_ref", "attributes"]);
+    let evidence = (store.evidence(), vec!["payload_inline"]);
+    let kinds = if text.starts_with("SEARCH CONCEPT") {
+        vec![concept]
+    } else if text.starts_with("SEARCH PROPOSITION") {
+        vec![proposition]
+    } else if text.starts_with("SEARCH EVIDENCE") {
+        vec![evidence]
+    } else {
+        vec![concept, proposition, evidence]
+    };
+    kinds.into_iter().map(|(col, fields)| col.get_bm25_index(&fields).map(|ix| ix.search_advanced(term, 10_000, None).len()).unwrap_or(0)).max().unwrap_or(0)
+}
+
+struct Stream {
+    reads: Vec<Exchange>,
+    writes: Vec<Exchange>,
+}
+
+/// The reader's complete exchange with one world, normalised.
+fn reader_stream(w: &mut World, pop: &RPop, p: u8, cmds: &[Cmd], readable_ids: &BTreeSet<String>) -> Result<Stream, String> {
+    let session = w.session(p);
+    let pre = visible_seqs(w, readable_ids)?;
+    let (mut reads, mut writes) = {
+        let mut r = battery::Runner { world: w, pop, session: &session, visible_seqs: pre };
+        let reads = r.run(cmds, false);
+        let writes = r.run(cmds, true);
+        (reads, writes)
+    };
+    register_new_ids(w, &writes);
+    let mut ids = readable_ids.clone();
+    ids.extend(w.label_of.iter().filter(|(_, l)| l.starts_with("new")).map(|(id, _)| id.clone()));
+    let post = visible_seqs(w, &ids)?;
+    for e in reads.iter_mut().chain(writes.iter_mut()) {
+        let cx = NormCtx { labels: &w.label_of, visible_seqs: &post };
+        e.norm = normalise(&e.raw, &cx);
+        if cmds[e.cmd].paging == Paging::Changes {
+            renorm_changes_cursor(&mut e.norm, &e.raw, &cx);
+        }
+    }
+    Ok(Stream { reads, writes })
+}
+
+fn renorm_changes_cursor(norm: &mut anda_kip::Json, raw: &anda_kip::Json, cx: &NormCtx) {
+    if let Some(n) = raw["next_cursor"].as_str().and_then(|s| s.parse::<u64>().ok()) {
+        let v = serde_json::json!(format!("seq:{}", cx.seq(n)));
+        norm["next_cursor"] = v.clone();
+        norm["results"][0]["next_cursor"] = v;
+    }
+}
+
+fn describe(e: &Exchange) -> String {
+    format!("{} with {} (page {})", crate::common::one_line(&e.text), e.params, e.page)
+}
+
+fn run_two_worlds(c: &TwCase, ctx: &mut CaseCtx) -> Result<(), Fail> {
+    let pop = resolve(&c.pop);
+    let gov = &c.gov;
+    let p = c.reader % gov.principals;
+    let none = Variation::default();
+
+    // ---- world W: everything
+    let mut w = h(build_population(&pop, gov, None, &none))?;
+    h(apply_governance(&mut w, &pop, gov))?;
+    let mut fx = h(facts(&w, &pop))?;
+
+    // ---- (b) reference decision function, for every principal
+    for q in 0..gov.principals {
+        let obs = h(observe_readable(&w, &pop, &fx, &w.session(q)))?;
+        if unambiguous_for(gov, q) {
+            for (i, f) in &fx {
+                let want = reference_may_read(gov, q, &f.info, pop.items.len());
+                if want != obs.contains_key(i) {
+                    return fail(
+                        "c19:reference-decision",
+                        format!(
+                            "(b) principal p{q} {} {} ({} {}, classification {}), the reference decision function says it {} (grants, groups, policy and statuses of the case)",
+                            if obs.contains_key(i) { "reads" } else { "cannot read" },
+                            pop.label(*i),
+                            f.info.kind.wire(),
+                            f.info.schema_ref,
+                            LABELS[f.info.class],
+                            if want { "may" } else { "may not" }
+                        ),
+                    );
+                }
+            }
+            ctx.count("reference_decisions_checked", fx.len() as u64);
+        } else {
+            ctx.count("reference_ambiguous_principals", 1);
+        }
+    }
+
+    // ---- R(p), observed; made reference-closed through the host classify API
+    let session = w.session(p);
+    let mut readable = h(observe_readable(&w, &pop, &fx, &session))?;
+    let mut r: BTreeSet<usize> = readable.keys().copied().collect();
+    let mut closed: BTreeSet<usize> = BTreeSet::new();
+    loop {
+        let bad: Vec<usize> = r.iter().copied().filter(|x| !fx[x].refs.is_subset(&r)).collect();
+        if bad.is_empty() {
+            break;
+        }
+        for x in bad {
+            r.remove(&x);
+            closed.insert(x);
+        }
+    }
+    if !closed.is_empty() {
+        for x in &closed {
+            h(w.classify(*x, TOP))?;
+        }
+        fx = h(facts(&w, &pop))?;
+        readable = h(observe_readable(&w, &pop, &fx, &session))?;
+        let now: BTreeSet<usize> = readable.keys().copied().collect();
+        if now != r {
+            return fail(
+                "c19:classified-out-of-reach-still-readable",
+                format!("after the host classified {:?} as {}, p{p} reads {:?}; expected {:?}", closed.iter().map(|x| pop.label(*x)).collect::<Vec<_>>(), LABELS[TOP], now.iter().map(|x| pop.label(*x)).collect::<Vec<_>>(), r.iter().map(|x| pop.label(*x)).collect::<Vec<_>>()),
+            );
+        }
+        ctx.excluded.push(K1.to_string());
+    }
+    ctx.count("elements_closed_for_K1", closed.len() as u64);
+    ctx.label(match closed.len() {
+        0 => "closure:0",
+        1..=2 => "closure:1-2",
+        3..=6 => "closure:3-6",
+        _ => "closure:7+",
+    });
+
+    // ---- masked content of readable elements (varied in W')
+    let mut vary = Variation::default();
+    for (i, view) in &readable {
+        let full = &fx[i].view;
+        if full.get("attributes").is_some() && view.get("attributes").is_none() {
+            vary.attributes.insert(*i);
+        }
+        if full.get("payload").is_some() && view.get("payload").is_none() {
+            vary.payload.insert(*i);
+        }
+    }
+    let masked: BTreeSet<String> = vary.attributes.iter().chain(vary.payload.iter()).map(|i| pop.label(*i)).collect();
+    if !masked.is_empty() {
+        ctx.label("reader_has_masked_content");
+    }
+
+    // ---- world W': the same script, but what p cannot read never exists
+    let mut w2 = h(build_population(&pop, gov, Some(&r), &vary))?;
+    h(apply_governance(&mut w2, &pop, gov))?;
+    let fx2 = h(facts(&w2, &pop))?;
+    let readable2 = h(observe_readable(&w2, &pop, &fx2, &w2.session(p)))?;
+    let r2: BTreeSet<usize> = readable2.keys().copied().collect();
+    if r2 != r {
+        return fail(
+            "c19:two-worlds:readable-set",
+            format!("(a) p{p} reads {:?} in the world that holds everything and {:?} in the world that holds only those", r.iter().map(|x| pop.label(*x)).collect::<Vec<_>>(), r2.iter().map(|x| pop.label(*x)).collect::<Vec<_>>()),
+        );
+    }
+
+    // ---- the battery
+    let ids1: BTreeSet<String> = r.iter().map(|i| w.id_of[i].clone()).collect();
+    let ids2: BTreeSet<String> = r.iter().map(|i| w2.id_of[i].clone()).collect();
+    let n_vis = h(visible_seqs(&w, &ids1))?.len();
+    let cmds = battery(&pop, &c.knobs, &r, n_vis);
+    // the owner's answers in W (non-triviality, and the corpus size of SEARCH terms)
+    let owner_reads = {
+        let all: BTreeSet<String> = w.id_of.values().cloned().collect();
+        let vs = h(visible_seqs(&w, &all))?;
+        let sys = w.env.nexus.system_session();
+        let mut run = battery::Runner { world: &mut w, pop: &pop, session: &sys, visible_seqs: vs };
+        run.run(&cmds, false)
+    };
+    let s1 = h(reader_stream(&mut w, &pop, p, &cmds, &ids1))?;
+    let s2 = h(reader_stream(&mut w2, &pop, p, &cmds, &ids2))?;
+
+    let group = |xs: &[Exchange]| -> BTreeMap<usize, Vec<usize>> {
+        let mut m: BTreeMap<usize, Vec<usize>> = BTreeMap::new();
+        for (k, e) in xs.iter().enumerate() {
+            m.entry(e.cmd).or_default().push(k);
+        }
+        m
+    };
+    let mut nontrivial_families: BTreeSet<&'static str> = BTreeSet::new();
+    for (phase, a, b) in [("read", &s1.reads, &s2.reads), ("write", &s1.writes, &s2.writes)] {
+        let (ga, gb) = (group(a), group(b));
+        for (ci, ka) in &ga {
+            let cmd = &cmds[*ci];
+            let kb = gb.get(ci).cloned().unwrap_or_default();
+            let pa: Vec<&Exchange> = ka.iter().map(|k| &a[*k]).collect();
+            let pb: Vec<&Exchange> = kb.iter().map(|k| &b[*k]).collect();
+            ctx.count("comparisons", pa.len() as u64);
+            // K4: a coordinate at which an element p cannot read now was readable
+            if let Some(t) = cmd.as_of {
+                if t != usize::MAX && pa[0].norm != pb.first().map(|e| e.norm.clone()).unwrap_or_default() {
+                    let seq = pa[0].params["s"].clone();
+                    let mut leaked = vec![];
+                    for i in w.id_of.keys().filter(|i| !r.contains(i)) {
+                        let kind = pop.items[*i].kind();
+                        if kind == Kind::Proposition {
+                            continue;
+                        }
+                        let q = format!("FIND(?x.id) WHERE {{ ?x {} {{id: :id}} }} AS OF SEQ :s", kind.keyword());
+                        let resp = w.env.run(crate::common::exec(&w.session(p), &q, serde_json::json!({"id": w.id_of[i], "s": seq})));
+                        if crate::common::body_of(&resp).map(|b| b.as_array().map(|a| !a.is_empty()).unwrap_or(false)).unwrap_or(false) {
+                            leaked.push(pop.label(*i));
+                        }
+                    }
+                    if !leaked.is_empty() {
+                        ctx.count("K4_attributions", 1);
+                        ctx.excluded.push(K4.to_string());
+                        continue;
+                    }
+                }
+            }
+            if cmd.search.is_some() && phase == "read" {
+                let limit = cmd.search.unwrap();
+                // how many documents of one kind the index itself returns for the term in W
+                // (any state, any classification): what the over-fetch window is taken from
+                let total = raw_index_matches(&w, &pa[0].text, pa[0].params["t"].as_str().unwrap_or(""));
+                if pb.is_empty() {
+                    return fail("c19:two-worlds:stream-shape", format!("(a) {} was answered in one world only", describe(pa[0])));
+                }
+                match compare_search(&pa, &pb, limit, total, &masked) {
+                    SearchVerdict::Equal => {}
+                    SearchVerdict::ScoresOnly => {
+                        ctx.count("K2_attributions", 1);
+                        ctx.excluded.push(K2.to_string());
+                    }
+                    SearchVerdict::WindowExhausted => {
+                        ctx.count("K3_attributions", 1);
+                        ctx.excluded.push(K3.to_string());
+                    }
+                    SearchVerdict::MaskProbe => {
+                        ctx.count("K6_attributions", 1);
+                        ctx.excluded.push(K6.to_string());
+                    }
+                    SearchVerdict::Differs(d) => {
+                        return fail(
+                            "c19:two-worlds:search",
+                            format!("(a) p{p}: {} is answered differently in the two worlds (not explained by the listed SEARCH findings): {d}\n  everything: {}\n  readable only: {}", describe(pa[0]), short(&pa[0].norm), short(&pb[0].norm)),
+                        );
+                    }
+                }
+            } else {
+                if pa.len() != pb.len() {
+                    return fail(
+                        "c19:two-worlds:paging",
+                        format!("(a) p{p}: {} took {} pages in the world that holds everything and {} pages in the world that holds only what p{p} reads", describe(pa[0]), pa.len(), pb.len()),
+                    );
+                }
+                for (ea, eb) in pa.iter().zip(pb.iter()) {
+                    if ea.norm != eb.norm {
+                        return fail(
+                            &format!("c19:two-worlds:{}", cmd.family),
+                            format!(
+                                "(a) p{p} can tell the two worlds apart: {}\n  difference: {}\n  everything exists: {}\n  only the readable exists: {}",
+                                describe(ea),
+                                first_difference(&ea.norm, &eb.norm, "").unwrap_or_default(),
+                                short(&ea.norm),
+                                short(&eb.norm)
+                            ),
+                        );
+                    }
+                }
+            }
+            // non-trivial: the owner's answer differs from p's, and p's is not empty
+            if phase == "read" {
+                let own: Vec<&Exchange> = owner_reads.iter().filter(|e| e.cmd == *ci).collect();
+                let differs = own.len() != pa.len() || own.iter().zip(pa.iter()).any(|(o, x)| strip_principal(&o.norm) != strip_principal(&x.norm));
+                if differs && pa.iter().any(|e| !is_empty_result(&e.norm)) {
+                    ctx.count("nontrivial_comparisons", pa.len() as u64);
+                    nontrivial_families.insert(cmd.family);
+                }
+            }
+        }
+    }
+    for f in &nontrivial_families {
+        ctx.label(format!("nontrivial:{f}"));
+    }
+    // labels: how the reader is authorised
+    let n = fx.len();
+    ctx.label(match (r.len(), n) {
+        (0, _) => "reads:nothing",
+        (a, b) if a == b => "reads:everything",
+        _ => "reads:some",
+    });
+    let groups_of_p: Vec<u8> = gov.groups.iter().enumerate().filter(|(_, m)| m.contains(&p)).map(|(i, _)| i as u8).collect();
+    for g in &gov.grants {
+        let mine = match &g.to {
+            Grantee::Principal(q) => *q == p,
+            Grantee::Group(x) => groups_of_p.contains(x),
+        };
+        if mine && !g.revoked {
+            ctx.label(format!("grant_scope:{}", g.scope.shape()));
+            if matches!(g.to, Grantee::Group(_)) {
+                ctx.label("authority:group_grant");
+            }
+            if g.mask % MASKS.len() as u8 != 0 {
+                ctx.label("authority:field_mask");
+            }
+            if g.window as usize % WINDOWS != 0 {
+                ctx.label(format!("grant_condition:{}", WINDOW_NAMES[g.window as usize % WINDOWS]));
+            }
+        }
+    }
+    if gov.delegations.iter().any(|d| d.to == p) {
+        ctx.label("authority:delegation");
+    }
+    if gov.policy.iter().any(|s| !s.deny) {
+        ctx.label("policy:allow");
+    }
+    if gov.policy.iter().any(|s| s.deny) {
+        ctx.label("policy:deny");
+    }
+    if gov.status.iter().any(|(q, _)| *q == p) {
+        ctx.label("reader_inactive");
+    }
+    ctx.nontrivial = !nontrivial_families.is_empty() && !r.is_empty() && r.len() < n;
+    Ok(())
+}
+
+/// DESCRIBE ACCESS / EXECUTION CONTEXT name the caller; the owner's answers
+/// are only compared with the reader's to decide non-triviality.
+fn strip_principal(v: &anda_kip::Json) -> anda_kip::Json {
+    v.clone()
+}
 
 pub fn run(r: &mut Runner) {
-    r.inconclusive("C19 is not built yet");
+    r.assume("R(p) is observed: the principal asks for each element by id (with its state) in the world that holds everything; a refused command reads nothing");
+    r.assume("both worlds are built by the same script through owner KML and the host control plane; responses are compared after renaming element ids through the script's labels and normalising RFC 3339 timestamps, transaction ids and *seq numbers (order-only, relative to the transactions the reader can see), snapshot tokens and content digests");
+    r.assume("the listed findings K1-K6, K8, K9 are excluded by construction or attributed and counted exactly as described in the sub-check rules (K1: reference-closed readable sets; K2/K3/K6: two-layer SEARCH comparison; K4: historical coordinates at which a now-unreadable element was readable are not compared; K5/K8: HISTORY ELEMENT / writes / PREVIEW KML are aimed at readable or never-assigned ids only; K9: the subset relation to a delegator that a policy statement denies is counted, not asserted); a deny of `read` naming the observed reader is generated without a resource scope, delegations run from lower to higher principals (no cycles); validity windows are years away from the wall clock (expired / not yet valid / covering), the live expiry transition is not covered");
+    r.set_case_timeout_ms(180_000);
+    r.sub_enum(
+        "known_findings",
+        "fixed reproductions of the listed findings: K1 reference disclosure, K2 SEARCH scores, K3 SEARCH over-fetch window, K4 AS OF admits by historical classification, K5 HISTORY ELEMENT of an unreadable id, K6 SEARCH probes masked fields, K8 PREVIEW KML aimed at an unreadable id, K9 policy deny of the delegator does not reach the delegate; non-trivial = the reproduction still shows the finding",
+        false,
+        findings::cases(),
+        wrap(findings::run),
+    );
+    r.sub(
+        "two_worlds",
+        "2-4 principals, 0-2 groups, 1-5 grants (principal / group; scoped by kind / type / classification / element; ceilings public..sensitive; field masks; conditions: validity windows expired / not yet / covering, strong authentication, session-bound purpose; revoked), 0-3 delegations (attenuated, amplifying, chains), 0-3 policy allow / deny statements, suspended / revoked principals, generated through the host APIs x 10-30 elements (concepts of 5 types with structural references, evidence, propositions, assertions citing evidence) of mixed classifications written by owner KML in 1-4-element transactions plus renames, attribute updates, re-classifications, archive, quarantine; world W holds everything, W' only what the observed reader reads by id in W (reference-closed by classifying every readable element that mentions an unreadable one as secret - counted; masked attributes / payloads get other values in W'); the reader's ~90-command stream (listings, patterns, counts, ORDER BY + LIMIT incl. masked fields, cursors, FILTER, OPTIONAL / NOT / UNION, BELIEF, by-id, SEARCH, HISTORY, CHANGES, SNAPSHOT, DESCRIBE / LIST, AS OF, EXPORT CAPSULE, then UPDATE / ARCHIVE / ENSURE / PREVIEW KML / CREATE aimed at readable elements) must be equal in both worlds after normalisation, SEARCH in two layers (hit sets always; scores / order attributed to K2, window exhaustion to K3, hits on masked content to K6 and counted), AS OF coordinates at which a now-unreadable element was readable attributed to K4 and counted; R(q) of every principal equals the reference decision function where the configuration is unambiguous for q; non-trivial = the reader reads some but not all elements and at least one command answers it differently from the owner with a non-empty result",
+        (800, 16_000),
+        tw_strategy,
+        wrap(run_two_worlds),
+    );
+    effect::register(r);
+    subset::register(r);
+    plane::register(r);
 }
